@@ -314,7 +314,7 @@ fn main() {
             ctx.exhaustive(&format!("supermasks-{}", name), "iter-case", "masks of the 16-bit type with at least 6 bits set (every mask in the thorough tier)", exh, masks.iter().filter(|m| m.count_ones() >= 6 || exh).map(move |&bits| Case::Sup { ty, bits }).collect::<Vec<_>>(), run_case);
         }
     }
-    ctx.prop("wide-masks", "iter-case", ctx.n(6_000, 100_000), wide_mask().prop_map(|(ty, bits, sub)| if sub { Case::Sub { ty, bits } } else { Case::Sup { ty, bits } }), run_case);
+    ctx.prop("wide-masks", "iter-case", ctx.n(6_000, 1_500_000), wide_mask().prop_map(|(ty, bits, sub)| if sub { Case::Sub { ty, bits } } else { Case::Sup { ty, bits } }), run_case);
     ctx.exhaustive("next-permutation-ternary", "iter-case", "all sequences over {0,1,2} of length <= 7", true, ternary(7).into_iter().map(|data| Case::NextPerm { data }), run_case);
     let pk = ctx.n(7, 8) as usize;
     for k in 0..=pk {
@@ -322,7 +322,7 @@ fn main() {
     }
     ctx.exhaustive("iter-permutations-ternary", "iter-case", "all sorted-or-not sequences over {0,1,2} of length <= 6 as input", true, ternary(6).into_iter().map(|data| Case::IterPerm { data }), run_case);
     ctx.exhaustive("iter-permutations-distinct", "iter-case", "0..k for k <= 8", true, (0..=8usize).map(|k| Case::IterPerm { data: (0..k as u8).rev().collect() }), run_case);
-    ctx.prop("multisets", "iter-case", ctx.n(4_000, 60_000), prop::collection::vec(0u8..5, 0..=9).prop_flat_map(|data| prop_oneof![Just(Case::NextPerm { data: data.clone() }), Just(Case::IterPerm { data: data.clone() })]), run_case);
+    ctx.prop("multisets", "iter-case", ctx.n(4_000, 600_000), prop::collection::vec(0u8..5, 0..=9).prop_flat_map(|data| prop_oneof![Just(Case::NextPerm { data: data.clone() }), Just(Case::IterPerm { data: data.clone() })]), run_case);
     let grids = (1..=7u8).flat_map(|n| (1..=7u8).flat_map(move |m| (0..n).flat_map(move |i| (0..m).flat_map(move |j| (0..3u8).map(move |kind| Case::Grid { kind, n, m, i, j })))));
     ctx.exhaustive("neighbours-all-grids", "iter-case", "all grids 1..=7 x 1..=7, all cells, three neighbour kinds", true, grids, run_case);
     ctx.finish();
